@@ -293,12 +293,12 @@ def c05(ctx):
     rng = random.Random(ctx.seed * 19 + 4)
     quick = ctx.tier == "quick"
     cases = []
-    for _ in range(3000 if quick else 60000):
+    for _ in range(3000 if quick else 20000):
         big = rng.random() < 0.5
         t = rand_int_tree(rng, rng.choice([2, 3, 4]), big)
         env = {v: rng.choice([0, 1, -1, 2, 7, -13, 10**20, -(10**30)]) for v in "xyz"}
         cases.append((t, env, "int"))
-    for _ in range(3000 if quick else 60000):
+    for _ in range(3000 if quick else 20000):
         t = rand_mixed_tree(rng, rng.choice([2, 3, 4]))
         env = {}
         for v in "xyzXYZ":
@@ -318,7 +318,7 @@ def c05(ctx):
         cases.append((t, env, "mixed"))
     # equations whose sides differ by very little (relative 1e-10 .. 1e-18) or not at all:
     # "raises when the sides differ" must not depend on a tolerance
-    for _ in range(400 if quick else 8000):
+    for _ in range(400 if quick else 3000):
         big = rng.random() < 0.7
         t = rand_int_tree(rng, rng.choice([1, 2, 3]), big)
         env = {v: rng.choice([1, 2, 7, 10**12, 10**20, -(10**30)]) for v in "xyz"}
@@ -402,7 +402,38 @@ def c05(ctx):
                 pass
         if not agree(real, a, ops):
             diffs.append({"tree": p_str(t), "env": str(env), "real": str(real)[:200], "model": a[:200]})
-    ctx.coverage["evaluations"] += len(cases)
+    # the value of an expression does not depend on what was evaluated before in the same process:
+    # every operator first with float operands, then with the numerically equal int operands (which must
+    # give the exact integer), then with floats again; and the other way round
+    n_hist = 0
+    for op in ("pow", "mul", "add", "sub"):
+        for b_ in (2, 3, 7, 10, 13, -7, 10**20 + 1):
+            for e_ in ((30, 41, 64, 70, 133, 400) if op == "pow" else (10**18 + 3, 2**62 + 1, 3**40)):
+                if op == "pow" and abs(b_) > 13:
+                    continue
+                tv = ("B", op, ("V", "x"), ("V", "y"))
+                tl = ("B", op, ("I", b_), ("I", e_))
+                for order_ in (("f", "i", "f"), ("i", "f", "i")):
+                    for k_ in order_:
+                        n_hist += 1
+                        if k_ == "f":
+                            try:
+                                real_eval(tv, {"x": float(b_), "y": float(e_)})
+                            except Exception:  # noqa
+                                pass
+                            continue
+                        try:
+                            want = z_denote(tl, {})
+                        except (ArithmeticError, OverflowError):
+                            continue
+                        for t_, env_ in ((tv, {"x": b_, "y": e_}), (tl, {})):
+                            got = real_eval(t_, env_)
+                            if got != ("int", want):
+                                bad.append({"tree": p_str(t_), "env": str(env_), "real": str(got)[:200], "exact": str(want)[:200],
+                                            "problem": "integer evaluation differs after the same operation was evaluated "
+                                                       "with float operands in this process", "order": "".join(order_)})
+    ctx.notes["evaluation_histories"] = n_hist
+    ctx.coverage["evaluations"] += len(cases) + n_hist
     ctx.coverage["distinct_nontrivial"] += len(nontrivial)
     ctx.coverage["traces_validated_against_impl"] += len(cases)
     ctx.notes["outcome_kinds"] = kinds
@@ -414,7 +445,7 @@ def c05(ctx):
     from . import gen as _gen
     from .props_rules import inplace_family
     nedit = 0
-    for _ in range(600 if quick else 12000):
+    for _ in range(600 if quick else 4000):
         t0 = _gen.rand_tree(rng, rng.choice([2, 3, 3, 4]), allow_eq=False)
         try:
             root = core.tuple_to_py(t0)
